@@ -9,7 +9,13 @@
 //!     the run and the binary exponent of the infinity norm of the gradient.
 //! `gen-logit <out>`  Fits `LogisticRegression` on generated training sets whose features
 //!     are small dyadic rationals (logged exactly as integers), and records the fitted
-//!     coefficients / intercepts in fixed point together with the predictions.
+//!     coefficients / intercepts in fixed point together with the predictions.  The two
+//!     fixed training sets of known_findings/C09.json are fitted first.
+//! `rerun-lbfgs <out> <run>` / `rerun-logit <out> <run>`  regenerate the seeded sequence of
+//!     cases (VERIF_SEED, VERIF_TIER) and execute only the one with that run number.
+//! `refit-file <out> <in>`  fit again the training sets stored in recorded LogitFit events.
+//! `C09_DEBUG=1` adds a `dbg` string with the raw floating-point values to the events (for a
+//!     human reader; the specification never looks at it).
 //!
 //! No property logic lives here.  Whether a run is monotone, reduced, stationary, ... is
 //! decided by the TLA+ predicates of spec/linear/LBFGS.tla and Logistic.tla under TLC.
@@ -18,7 +24,9 @@ use rand::Rng;
 use serde_json::{json, Value};
 use smartcore::linalg::naive::dense_matrix::DenseMatrix;
 use smartcore::linalg::BaseMatrix;
-use smartcore::linear::logistic_regression::{LogisticRegression, LogisticRegressionParameters};
+use smartcore::linear::logistic_regression::{
+    LogisticRegression, LogisticRegressionParameters, LogisticRegressionSolverName,
+};
 use smartcore::verif::{Backtracking, FirstOrderOptimizer, FunctionOrder, LBFGS};
 use std::cell::RefCell;
 use vutil::*;
@@ -41,9 +49,8 @@ struct QuadCase {
     b: Vec<f64>,
     x0: Vec<f64>,
     max_iter: usize,
-    /// g_atol = 0 (code -1), default 1e-8 (code 0), or 2^atol_e (code 1)
+    /// g_atol = 0 (code -1), default 1e-8 (code 0), or 2^-44 |g(x0)|_inf (code 1)
     atol_kind: i32,
-    atol_e: i32,
     hist: usize,
     third: bool,
     family: &'static str,
@@ -128,9 +135,10 @@ fn gen_quad(r: &mut StdRng, idx: usize) -> QuadCase {
             _ => r.gen_range(-50..=50) as f64 * 1024.0,
         })
         .collect();
-    let xe = match r.gen_range(0..4) {
-        0 => r.gen_range(-10..=0),
-        1 => r.gen_range(1..=20),
+    let xe = match r.gen_range(0..8) {
+        0 | 1 => r.gen_range(-10..=0),
+        2 | 3 => r.gen_range(1..=20),
+        4 => r.gen_range(21..=40),
         _ => 0,
     };
     let mut x0: Vec<f64> = (0..d)
@@ -139,11 +147,11 @@ fn gen_quad(r: &mut StdRng, idx: usize) -> QuadCase {
     if r.gen_range(0..20) == 0 {
         x0 = vec![0.0; d];
     }
-    let (max_iter, atol_kind, atol_e) = match r.gen_range(0..10) {
-        0 => (r.gen_range(1..=4), 0, 0),
-        1 | 2 => (1000, -1, 0),
-        3 | 4 => (1000, 1, 0),
-        _ => (1000, 0, 0),
+    let (max_iter, atol_kind) = match r.gen_range(0..10) {
+        0 => (r.gen_range(1..=4), 0),
+        1 | 2 => (1000, -1),
+        3 | 4 => (1000, 1),
+        _ => (1000, 0),
     };
     let hist = match r.gen_range(0..5) {
         0 => 1,
@@ -161,7 +169,6 @@ fn gen_quad(r: &mut StdRng, idx: usize) -> QuadCase {
         x0,
         max_iter,
         atol_kind,
-        atol_e,
         hist,
         third: r.gen_bool(0.5),
         family,
@@ -264,7 +271,6 @@ fn run_quad(c: &QuadCase) -> QuadOutcome {
         Ok(res) => ("ok", Some((pt(&res.x), res.f_x, res.iterations))),
         Err(_) => ("panic", None),
     };
-    let _ = c.atol_e;
     let mut l = log.into_inner();
     // value of the objective and the gradient at the returned point, by the same call-backs
     if let Some((x, _, _)) = &ret {
@@ -380,13 +386,17 @@ fn quad_events(run: i64, c: &QuadCase, o: &QuadOutcome) -> Vec<Value> {
     ev
 }
 
-fn gen_lbfgs(path: &str) {
+/// `only`: regenerate the whole seeded sequence of cases but execute just this one (replay)
+fn gen_lbfgs(path: &str, only: Option<usize>) {
     let mut out = Out::create(path);
     let mut r = rng(9);
-    let n = if thorough() { 6000 } else { 600 };
+    let n = if thorough() { 8000 } else { 1500 };
     let mut timeouts = 0;
     for idx in 0..n {
         let c = gen_quad(&mut r, idx);
+        if only.map(|o| o != idx).unwrap_or(false) {
+            continue;
+        }
         let c2 = c.clone();
         let o = watchdog(20, move || run_quad(&c2));
         let run = idx as i64 + 1;
@@ -417,8 +427,11 @@ fn gen_lbfgs(path: &str) {
 // logistic regression
 // ------------------------------------------------------------------------------------------
 
-/// features are multiples of 2^-XS (exactly representable, logged as integers)
+/// features are multiples of 2^-xs (exactly representable, logged as integers); xs = XS for
+/// the ordinary families, 0 for the large-magnitude family (integer-valued features)
 const XS: i32 = 4;
+/// the ways a caller can build the parameter object (all must mean the same thing)
+const STYLES: [&str; 4] = ["alpha", "solver_alpha", "alpha_solver", "struct"];
 /// alpha = alphaNum / 2^AS
 const AS: i32 = 6;
 
@@ -435,6 +448,8 @@ struct LogitCase {
     qi: Vec<Vec<i64>>,
     alpha_num: i64,
     layout: &'static str,
+    xs: i32,
+    style: usize,
 }
 
 fn gauss(r: &mut StdRng) -> f64 {
@@ -461,10 +476,24 @@ fn gen_logit(r: &mut StdRng, idx: usize, th: bool) -> LogitCase {
     }
     labels2.sort();
     // per-feature scale 0.1 .. 100 and shift
+    // large-magnitude family: raw, un-centred measurements (scale 16..100, shifted by up to
+    // 30 scales, |x| up to 4000), integer valued
+    let large = r.gen_range(0..4) == 0;
+    let xs = if large { 0 } else { XS };
     let scales = [0.125, 0.5, 1.0, 4.0, 16.0, 100.0];
-    let sc: Vec<f64> = (0..p).map(|_| scales[r.gen_range(0..scales.len())]).collect();
+    let sc: Vec<f64> = (0..p)
+        .map(|_| if large { scales[r.gen_range(4..6)] } else { scales[r.gen_range(0..scales.len())] })
+        .collect();
     let sh: Vec<f64> = (0..p)
-        .map(|j| if r.gen_bool(0.5) { 0.0 } else { sc[j] * r.gen_range(-3..=3) as f64 })
+        .map(|j| {
+            if large {
+                sc[j] * r.gen_range(-30..=30) as f64
+            } else if r.gen_bool(0.5) {
+                0.0
+            } else {
+                sc[j] * r.gen_range(-3..=3) as f64
+            }
+        })
         .collect();
     let (layout, sep) = match r.gen_range(0..5) {
         0 => ("same", 0.0),
@@ -481,19 +510,35 @@ fn gen_logit(r: &mut StdRng, idx: usize, th: bool) -> LogitCase {
         (0..p)
             .map(|j| {
                 let v = sh[j] + sc[j] * (means[c][j] + gauss(r));
-                let q = (v * (1 << XS) as f64).round();
+                let q = (v * (1 << xs) as f64).round();
                 q.max(-lim).min(lim) as i64
             })
             .collect()
     };
     let mut yc: Vec<usize> = (0..n).map(|i| if i < k { i } else { r.gen_range(0..k) }).collect();
-    // unbalanced now and then
-    if r.gen_range(0..4) == 0 {
-        for v in yc.iter_mut().skip(k) {
-            if r.gen_bool(0.7) {
-                *v = 0;
+    // unbalanced now and then: one dominant class, or (large family, k >= 3) two frequent
+    // classes and rare others
+    match r.gen_range(0..4) {
+        0 => {
+            for v in yc.iter_mut().skip(k) {
+                if r.gen_bool(0.7) {
+                    *v = 0;
+                }
             }
         }
+        1 | 2 if large && k >= 3 => {
+            for v in yc.iter_mut().skip(k) {
+                let u: f64 = r.gen();
+                *v = if u < 0.45 {
+                    0
+                } else if u < 0.9 {
+                    1
+                } else {
+                    r.gen_range(2..k)
+                };
+            }
+        }
+        _ => {}
     }
     // random order of the rows
     for i in (1..n).rev() {
@@ -508,6 +553,7 @@ fn gen_logit(r: &mut StdRng, idx: usize, th: bool) -> LogitCase {
     }
     let alphas: [i64; 8] = [0, 1, 4, 16, 64, 128, 256, 640];
     let alpha_num = alphas[r.gen_range(0..alphas.len())];
+    let style = r.gen_range(0..STYLES.len());
     LogitCase {
         n,
         p,
@@ -517,17 +563,28 @@ fn gen_logit(r: &mut StdRng, idx: usize, th: bool) -> LogitCase {
         xi,
         qi,
         alpha_num,
-        layout,
+        layout: if large {
+            match layout {
+                "same" => "large-same",
+                "overlap" => "large-overlap",
+                "apart" => "large-apart",
+                _ => "large-separable",
+            }
+        } else {
+            layout
+        },
+        xs,
+        style,
     }
 }
 
-fn to_matrix(rows: &[Vec<i64>]) -> DenseMatrix<f64> {
+fn to_matrix(rows: &[Vec<i64>], xs: i32) -> DenseMatrix<f64> {
     let n = rows.len();
     let p = rows[0].len();
     let mut v = Vec::with_capacity(n * p);
     for r in rows {
         for x in r {
-            v.push(*x as f64 / (1 << XS) as f64);
+            v.push(*x as f64 / (1 << xs) as f64);
         }
     }
     DenseMatrix::from_array(n, p, &v)
@@ -556,12 +613,24 @@ struct LogitOut {
 }
 
 fn run_logit(c: &LogitCase) -> Result<LogitOut, String> {
-    let x = to_matrix(&c.xi);
-    let q = to_matrix(&c.qi);
+    let x = to_matrix(&c.xi, c.xs);
+    let q = to_matrix(&c.qi, c.xs);
     let y: Vec<f64> = c.yc.iter().map(|&i| c.labels2[i] as f64 / 2.0).collect();
     let alpha = c.alpha_num as f64 / (1 << AS) as f64;
-    let lr = LogisticRegression::fit(&x, &y, LogisticRegressionParameters::default().with_alpha(alpha))
-        .map_err(|e| format!("err:{}", e))?;
+    let params = match c.style {
+        0 => LogisticRegressionParameters::default().with_alpha(alpha),
+        1 => LogisticRegressionParameters::default()
+            .with_solver(LogisticRegressionSolverName::LBFGS)
+            .with_alpha(alpha),
+        2 => LogisticRegressionParameters::default()
+            .with_alpha(alpha)
+            .with_solver(LogisticRegressionSolverName::LBFGS),
+        _ => LogisticRegressionParameters {
+            solver: LogisticRegressionSolverName::LBFGS,
+            alpha,
+        },
+    };
+    let lr = LogisticRegression::fit(&x, &y, params).map_err(|e| format!("err:{}", e))?;
     let cm = lr.coefficients();
     let im = lr.intercept();
     let (cr, cc) = cm.shape();
@@ -580,9 +649,10 @@ fn run_logit(c: &LogitCase) -> Result<LogitOut, String> {
 fn logit_event(run: i64, c: &LogitCase, o: Option<Result<Result<LogitOut, String>, String>>) -> Value {
     let mut e = json!({"run": run, "ev": "LogitFit", "n": c.n, "p": c.p, "k": c.k, "layout": c.layout,
         "labels2": c.labels2, "yc": c.yc.iter().map(|v| v + 1).collect::<Vec<usize>>(),
-        "xS": XS, "X": c.xi, "Q": c.qi, "alphaNum": c.alpha_num, "alphaS": AS});
+        "xS": c.xs, "X": c.xi, "Q": c.qi, "alphaNum": c.alpha_num, "alphaS": AS, "build": STYLES[c.style]});
     let status;
     let (mut w_ok, mut ws, mut bs): (bool, Vec<u32>, u32) = (false, vec![0; c.p], 0u32);
+    let (mut w_fin, mut rows, mut cols_n, mut icn) = (false, 0usize, 0usize, 0usize);
     let (mut coef, mut icept): (Vec<Vec<i64>>, Vec<i64>) = (vec![], vec![]);
     let (mut pred2, mut pred_ok): (Vec<i64>, bool) = (vec![], false);
     match o {
@@ -591,6 +661,13 @@ fn logit_event(run: i64, c: &LogitCase, o: Option<Result<Result<LogitOut, String
         Some(Ok(Err(_))) => status = "err",
         Some(Ok(Ok(out))) => {
             status = "ok";
+            if std::env::var("C09_DEBUG").is_ok() {
+                e["dbg"] = json!(format!("coef={:?} icept={:?}", out.coef, out.icept));
+            }
+            w_fin = out.coef.iter().flatten().all(|v| v.is_finite()) && out.icept.iter().all(|v| v.is_finite());
+            rows = out.coef.len();
+            cols_n = out.coef.iter().map(|r| r.len()).max().unwrap_or(0);
+            icn = out.icept.len();
             // one power-of-two scale per feature column (coefficients of differently scaled
             // features differ by orders of magnitude) and one for the intercepts
             let p = c.p;
@@ -616,6 +693,11 @@ fn logit_event(run: i64, c: &LogitCase, o: Option<Result<Result<LogitOut, String
         }
     }
     e["status"] = json!(status);
+    // shape of what fit returned, whether it is finite, and whether it fits the fixed-point range
+    e["coefRows"] = json!(rows);
+    e["coefCols"] = json!(cols_n);
+    e["iceptLen"] = json!(icn);
+    e["wFin"] = json!(w_fin);
     e["wOk"] = json!(w_ok);
     e["wS"] = json!(ws);
     e["bS"] = json!(bs);
@@ -626,14 +708,55 @@ fn logit_event(run: i64, c: &LogitCase, o: Option<Result<Result<LogitOut, String
     e
 }
 
-fn gen_logit_file(path: &str) {
+
+/// Two fixed training sets on which the unchanged library is known to misbehave (see
+/// known_findings/C09.json); they are fitted first in every run so that the findings are
+/// reported (or seen to be repaired) independently of the seed.
+fn fixed_cases() -> Vec<LogitCase> {
+    let mut v = vec![];
+    // alpha = 0, separable, one feature: NaN coefficients
+    v.push(fixed_case(1, &[-2, 2], &[0, 0, 1, 1, 1, 1, 1, 0, 1, 0, 0, 1, 1, 0, 1, 1, 1, 1, 1, 1, 0, 0, 1, 1, 0, 0, 0, 0, 1, 0, 1, 1, 1, 0, 0, 1, 0, 1, 0, 0, 1, 1, 1, 1, 1, 1, 1, 0, 1, 0, 0, 1, 1, 0, 0, 1, 1, 1, 0, 1, 0, 1, 1, 1, 1, 1, 1, 0], &[309, 358, -1979, -2304, -2351, -2067, -1733, -53, -2399, 620, 427, -2011, -1981, 844, -1671, -1801, -1892, -2271, -2101, -1846, 247, 842, -2469, -1989, 833, 1031, 115, 381, -2398, 300, -2587, -1670, -1906, 570, 823, -1992, 549, -1834, 526, 80, -2200, -1920, -2339, -2151, -2246, -2088, -1790, 305, -1572, 729, 836, -2217, -1658, 440, 612, -1963, -2217, -2024, 539, -1592, 828, -1859, -1837, -1762, -1553, -2131, -2286, 61], 0, "separable"));
+    // alpha = 1/64, four classes, two features of magnitude ~200: 1000 iterations are not enough
+    v.push(fixed_case(4, &[-3, 0, 7, 20], &[3, 2, 3, 2, 3, 3, 1, 1, 0, 1, 0, 2, 0, 1], &[-3182, 7, -3164, 2, -3863, 12, -2991, -12, -2334, -7, -1168, -18, -727, 11, -2170, -25, -2100, 25, -2795, 13, -3329, 9, -2100, -11, -1635, 8, -2899, 2, -3167, -1, -4000, -13, -2137, 5, -4000, -15, 1287, 2, -3132, -13, -4000, 18, -4000, 6, 305, 0, -4000, -3, -1911, 22, -4000, -12, 1864, 2, -2875, 15], 1, "overlap"));
+    v
+}
+
+fn fixed_case(p: usize, labels2: &[i64], yc: &[usize], flat: &[i64], alpha_num: i64, layout: &'static str) -> LogitCase {
+    let n = yc.len();
+    let xi: Vec<Vec<i64>> = (0..n).map(|i| flat[i * p..(i + 1) * p].to_vec()).collect();
+    LogitCase {
+        n,
+        p,
+        k: labels2.len(),
+        labels2: labels2.to_vec(),
+        yc: yc.to_vec(),
+        qi: xi.clone(),
+        xi,
+        alpha_num,
+        layout,
+        xs: XS,
+        style: 0,
+    }
+}
+
+fn gen_logit_file(path: &str, only: Option<usize>) {
     let mut out = Out::create(path);
     let mut r = rng(90);
     let th = thorough();
-    let n = if th { 1500 } else { 240 };
+    let n = if th { 3000 } else { 600 };
     let (mut bad, mut unscaled) = (0, 0);
+    if only.is_none() {
+        for (i, c) in fixed_cases().into_iter().enumerate() {
+            let c2 = c.clone();
+            let o = watchdog(60, move || run_logit(&c2));
+            out.emit(logit_event(900001 + i as i64, &c, o));
+        }
+    }
     for idx in 0..n {
         let c = gen_logit(&mut r, idx, th);
+        if only.map(|o| o != idx).unwrap_or(false) {
+            continue;
+        }
         let c2 = c.clone();
         let o = watchdog(60, move || run_logit(&c2));
         let e = logit_event(idx as i64 + 1, &c, o);
@@ -648,6 +771,53 @@ fn gen_logit_file(path: &str) {
     println!("logit: {} events, {} not ok, {} out of fixed-point range", n, bad, unscaled);
 }
 
+/// re-execute recorded LogitFit events from their own input fields (replay of an artefact)
+fn refit_file(inp: &str, path: &str) {
+    let mut out = Out::create(path);
+    for v in read_ndjson(inp) {
+        if v["ev"] != "LogitFit" {
+            continue;
+        }
+        let mat = |a: &Value| -> Vec<Vec<i64>> {
+            a.as_array()
+                .unwrap()
+                .iter()
+                .map(|r| r.as_array().unwrap().iter().map(|x| x.as_i64().unwrap()).collect())
+                .collect()
+        };
+        let ints = |a: &Value| -> Vec<i64> { a.as_array().unwrap().iter().map(|x| x.as_i64().unwrap()).collect() };
+        let layout: &'static str = match v["layout"].as_str().unwrap_or("") {
+            "same" => "same",
+            "overlap" => "overlap",
+            "apart" => "apart",
+            "separable" => "separable",
+            "large-same" => "large-same",
+            "large-overlap" => "large-overlap",
+            "large-apart" => "large-apart",
+            "large-separable" => "large-separable",
+            _ => "given",
+        };
+        let style = STYLES.iter().position(|s| Some(*s) == v["build"].as_str()).unwrap_or(0);
+        let c = LogitCase {
+            n: v["n"].as_u64().unwrap() as usize,
+            p: v["p"].as_u64().unwrap() as usize,
+            k: v["k"].as_u64().unwrap() as usize,
+            labels2: ints(&v["labels2"]),
+            yc: ints(&v["yc"]).iter().map(|x| *x as usize - 1).collect(),
+            xi: mat(&v["X"]),
+            qi: mat(&v["Q"]),
+            alpha_num: v["alphaNum"].as_i64().unwrap(),
+            layout,
+            xs: v["xS"].as_i64().unwrap_or(XS as i64) as i32,
+            style,
+        };
+        let c2 = c.clone();
+        let o = watchdog(60, move || run_logit(&c2));
+        out.emit(logit_event(v["run"].as_i64().unwrap_or(0), &c, o));
+    }
+    println!("refit: {} events", out.finish());
+}
+
 fn main() {
     let args: Vec<String> = std::env::args().skip(1).collect();
     let args = &args[..];
@@ -655,8 +825,13 @@ fn main() {
     let mode = arg(args, 0);
     let path = arg(args, 1);
     match mode {
-        "gen-lbfgs" => gen_lbfgs(path),
-        "gen-logit" => gen_logit_file(path),
+        "gen-lbfgs" => gen_lbfgs(path, None),
+        "gen-logit" => gen_logit_file(path, None),
+        // rerun-* <out> <run>: execute again the case that produced run number <run>
+        "rerun-lbfgs" => gen_lbfgs(path, Some(arg(args, 2).parse::<usize>().expect("run number") - 1)),
+        "rerun-logit" => gen_logit_file(path, Some(arg(args, 2).parse::<usize>().expect("run number") - 1)),
+        // refit-file <out> <in>: fit again the training sets stored in recorded LogitFit events
+        "refit-file" => refit_file(arg(args, 2), path),
         _ => {
             eprintln!("unknown mode {}", mode);
             std::process::exit(2)
